@@ -517,6 +517,28 @@ def _witness_summary(ctx, name, data, jobs, use_bd):
     shutil.rmtree(d, ignore_errors=True)
 
 
+def _witness_filename(ctx, name, fname):
+    """one source file called `fname`, the addon prints one well-formed error finding for it"""
+    d = ctx.tmpdir('w-' + name)
+    src = os.path.join(d, 'src')
+    cases.write(os.path.join(src, fname), 'int f(int x) { return x; }\n')
+    script = AG.Script()
+    o = {'file': fname, 'linenr': 1, 'column': 5, 'severity': 'error', 'message': 'injected', 'addon': 'scr',
+         'errorId': 'w'}
+    script.files[fname] = ([AG.jdump(o)], 0)
+    script.ctu = ([], 0)
+    sp = os.path.join(d, 'script.json')
+    script.write(sp)
+    c = {'d': d, 'src': src, 'names': [fname], 'opts': ['-q', '--addon=' + AG.write_addon_json(d)],
+         'use_bd': False, 'script': script, 'script_path': sp, 'per_file': {fname: ([], 0)},
+         'ctu_kl': [], 'outcomes': {fname: AG.model_invocation(script.files[fname][0], 0, fname, set())},
+         'ctu_out': AG.model_invocation([], 0, '', set()), 'supprs': [], 'enable': None, 'jobs': ['-j1'],
+         'flavour': 'mon', 'inline': False}
+    ctx.count('witness_replays', name)
+    run_case(ctx, c, 'witness:' + name)
+    shutil.rmtree(d, ignore_errors=True)
+
+
 def run(ctx):
     ctx.rule = ('case = 1-3 source files + a generated addon script (0-12 lines per file and for the whole-program '
                 'call) run under random --enable / -j / executor / build dir / suppressions; non-trivial = at least '
@@ -527,6 +549,9 @@ def run(ctx):
     _witness_ctu_mismatch(ctx)
     _witness_summary(ctx, 'summary-nonascii-process-nobuilddir', ['xé'], ['-j2', '--executor=process'], False)
     _witness_summary(ctx, 'summary-dollar-symbol-nobuilddir', ['see $symbol here'], ['-j1'], False)
+    # generated cases use source names without shell metacharacters (exclusion named by this finding)
+    _witness_filename(ctx, 'shell-metachar-in-file-name', 'semi;colon.c')
+    _witness_filename(ctx, 'two-spaces-in-file-name', 'two  spaces.c')      # holds (kept as a regression probe)
     n_mon = ctx.n(40, 3000)
     n_asan = ctx.n(6, 400)
     items = [('mon', i) for i in range(n_mon)] + [('asan', i) for i in range(n_asan)]
